@@ -7,6 +7,7 @@ CONSTANTS
   MaxFaults = 1
   MaxRecs = 4
   WithFin = FALSE
+  ForeignAct = FALSE
   Foreign = {}
   FixGC = TRUE
   MidEnv = FALSE
